@@ -718,6 +718,15 @@ class Interp:
                 if e == "ValueError" and self.cur[-1][0] == "parser":
                     st2 = st2.set("$t1", f"{len(st2.marks) - 1}|{tfn}|try|{hname}|{origin}")
                 ho = self.block(h.body, {st2})
+                # T2P: a catch-all clause (Exception / BaseException / bare -- not one that names ParseError) takes a
+                # ParseError and goes on: the text was found ill-formed after tokens had been consumed, and the loader
+                # continues or returns as if nothing had happened
+                if e == "ParseError" and self.cur[-1][0] == "parser" and not any(t in ("ParseError",) for t in self.htypes(h)) \
+                        and (ho.normal or ho.returns or ho.continues or ho.breaks):
+                    self.report("T2P", tfn, f"except {hname}",
+                                f"`except {hname}` in {tfn} can catch a ParseError (raised at {origin}) and carries on: the "
+                                "ill-formed text is accepted and the statements that were being parsed are dropped",
+                                node=h, origin=origin)
 
                 def clean(x, h=h):
                     flag = x.get("$t1")
@@ -1083,6 +1092,13 @@ class Interp:
                 never_returns = bool(summ) and all(x[0] != "return" for x in summ)
                 if not never_returns:
                     st = self.t1_check(st, e)
+                # T7 through a callee: the END statement has been recognised and the callee asks the lexer for a token
+                # (some exit of its summary consumed one, or left the stream in another state than it found it)
+                if st.after_end and not st.get("$degraded") and st.stream == "FRESH" and any(
+                        x[3] > 0 or x[4] != st.stream for x in summ):
+                    self.report("T7", self.fq(), self.anchor(e),
+                                f"{self.where(e)}: a token is requested (inside {fn.name}) after the END statement was recognised",
+                                node=e)
                 st = self.raw_check(st, e, self.where(e))
             for (kind, ret, dlo, dhi, stream, skipped, after_end, exc, origin, closed) in summ:
                 if tok:
@@ -1166,6 +1182,17 @@ class Interp:
                 return ok("OTHER")
             return ok("OTHER")
         # attribute calls ----------------------------------------------------
+        # partial functions of the standard library: a lookup without a default raises for the inputs it does not know
+        dotted = norm(f)
+        partial = {"unicodedata.name": ("ValueError", 1), "unicodedata.decimal": ("ValueError", 1), "unicodedata.digit": ("ValueError", 1),
+                   "unicodedata.numeric": ("ValueError", 1), "unicodedata.lookup": ("KeyError", 1), "name": ("ValueError", 1)}
+        if dotted in partial and dotted != "name" and len(e.args) == partial[dotted][1] and not e.keywords:
+            self.events["lib"].add(w)
+            return ok("OTHER") + [(None, st, partial[dotted][0], w)]
+        if isinstance(f, ast.Attribute) and name in ("index", "remove") and e.args and recv_val not in ("TOKEN",) \
+                and not norm(f.value).startswith(("self.", "tokens")):
+            self.events["lib"].add(w)
+            return ok("OTHER") + [(None, st, "ValueError", w)]
         if name == "strptime":
             self.events["lib"].add(w)
             return ok("K:DATETIME") + [(None, st, "ValueError", w)]
